@@ -132,3 +132,24 @@ def sizes_cases(ctx):
         out.append(rng.choice(["(arr %s)", "(arri %s)", "(tag 7 (arr %s))"]) % parts)
         out.append("(map %s)" % " ".join("(bsz %d)" % rng.choice([2 ** 63 - 5, 2 ** 63 - 4, 2 ** 63, 7, 2 ** 62]) for _ in range(2 * rng.randrange(1, 3))))
     return out
+
+
+# ------------------------------------------------------------------ model-fidelity audit (AUDIT.md)
+def audit_cases(ctx):
+    """trees for the ser / rt / copy / rdonly family that sit on the remaining case splits of PItem.ssize / serialize_into:
+    capacity-0 and partially filled definite containers in every position (head from size, never from capacity), empty
+    chunks at either end, simple values on both sides of the one-byte form, half items holding values NO half can represent
+    (cbor_encode_half rounds / flushes: the model's bit-level function must agree through the item path too), all NaN kinds"""
+    out = ["(arrd 0)", "(mapd 0)", "(tag 0 (arrd 0))", "(map (arrd 3) (mapd 2))", "(map (arrd 3 (u8 1)) (mapd 2 (u8 1) (u8 2)))",
+           "(arri (arrd 24) (mapd 24) (arrd 25 (ctrl 20)))", "(mapi (tag 24 (arrd 1)) (arrd 256 (u8 0)))",
+           "(bsi - - -)", "(tsi - c3a9 -)", "(bsi - 61)", "(tsi 61 -)", "(arr (bsi) (tsi) (bs -) (ts -))",
+           "(arr (ctrl 0) (ctrl 23) (ctrl 24) (ctrl 31) (ctrl 32) (ctrl 255))", "(map (ctrl 24) (ctrl 23))", "(tag 23 (ctrl 24))"]
+    for b in (0x33800000, 0x33000000, 0x33000001, 0x337fffff, 0x33800001, 0x38800000, 0x387fc000, 0x387fe000, 0x387ff000, 0x477fe000, 0x477ff000, 0x47800000,
+              0x7f7fffff, 0xff7fffff, 0x00000001, 0x80000001, 0x007fffff, 0x3f800001, 0x3f801000, 0x3f802000, 0x3f803000, 0x7f800001, 0xff800001, 0x7fffffff, 0xffc00000):
+        out.append("(f16 %x)" % b)
+        out.append("(arr (f16 %x))" % b)
+    for b in (0x7f800001, 0xffc00001, 0x7fbfffff, 0xffffffff):
+        out.append("(tag 1 (f32 %x))" % b)
+    for b in (0x7ff0000000000001, 0xfff8000000000001, 0x7ff7ffffffffffff, 0xffffffffffffffff):
+        out.append("(mapi (f64 %x) (f64 %x))" % (b, b))
+    return out
